@@ -1,7 +1,7 @@
 \* EXPECTED VIOLATION DbConsistent: as coded a transaction pushed twice corrupts the persistent list
 CONSTANTS NTx = 3 Kind <- KindS Sender <- SenderS Nonce <- NonceS NAccs = 1 Accs <- MCAccs StartEmpty = FALSE
   Max = 3 NPushers = 1 NConsumers = 0 Batch = 2
-  MaxPush = 4 MaxBlocks = 1 MaxFail = 0 MaxCrash = 0 MaxClose = 0 MaxPops = 1 MaxExecErr = 0
+  MaxPush = 4 MaxBlocks = 1 MaxFail = 0 MaxCrash = 0 MaxClose = 0 MaxPops = 1 MaxExecErr = 0 MaxFatal = 0
   DedupFix = FALSE OverflowFix = TRUE Mutant = "none"
 INIT Init
 NEXT Next
